@@ -27,7 +27,12 @@ func Owner() *rapid.Generator[guid.G] {
 // ESLList draws one well-formed list of a type the decoder handles. One list in
 // eight repeats one of its entries (legal in a stream), one in sixteen is big
 // (33..70 entries).
-func ESLList() *rapid.Generator[esl.List] {
+func ESLList() *rapid.Generator[esl.List] { return eslList(false) }
+
+// ESLListHuge is ESLList where one list in sixty has hundreds to thousands of entries.
+func ESLListHuge() *rapid.Generator[esl.List] { return eslList(true) }
+
+func eslList(huge bool) *rapid.Generator[esl.List] {
 	return rapid.Custom(func(t *rapid.T) esl.List {
 		l := eslListPlain(t)
 		if len(l.Entries) >= 1 && rapid.IntRange(0, 7).Draw(t, "dupentry") == 0 {
@@ -40,6 +45,28 @@ func ESLList() *rapid.Generator[esl.List] {
 			for len(l.Entries) < n {
 				l.Entries = append(l.Entries, esl.Entry{Owner: Owner().Draw(t, "o"), Data: FillBytes(t, int(l.Size)-16)})
 			}
+		}
+		if huge && l.Type != esl.ExtMgm && Chance(t, "hugelist", 1, 60) {
+			// hundreds to thousands of entries: counts around powers of two, where buffers and pre-sized slices end
+			n := rapid.SampledFrom([]int{255, 256, 257, 1023, 1024, 1025, 1026, 1100, 2049, 4097}).Draw(t, "hugen")
+			if l.Size > 16+64 {
+				l = esl.List{Type: l.Type, Size: 16 + 40} // keep the stream below ~250 KB
+			}
+			seed := rapid.Uint64().Draw(t, "hugeseed") | 1
+			owner := Owner().Draw(t, "hugeowner")
+			for i := len(l.Entries); i < n; i++ {
+				d := make([]byte, int(l.Size)-16)
+				for j := range d {
+					seed ^= seed << 13
+					seed ^= seed >> 7
+					seed ^= seed << 17
+					d[j] = byte(seed >> 24)
+				}
+				l.Entries = append(l.Entries, esl.Entry{Owner: owner, Data: d})
+			}
+		}
+		if len(l.Entries) > 8 && l.Size >= 28 && rapid.Bool().Draw(t, "mimic") {
+			mimicHeaders(l)
 		}
 		return l
 	})
@@ -79,7 +106,12 @@ func eslListPlain(t *rapid.T) esl.List {
 
 // ESLStream draws 0..max well-formed lists in any order; adjacent lists of equal
 // type and size and empty lists occur.
-func ESLStream(max int) *rapid.Generator[[]esl.List] {
+func ESLStream(max int) *rapid.Generator[[]esl.List] { return eslStream(max, false) }
+
+// ESLStreamHuge is ESLStream over ESLListHuge.
+func ESLStreamHuge(max int) *rapid.Generator[[]esl.List] { return eslStream(max, true) }
+
+func eslStream(max int, huge bool) *rapid.Generator[[]esl.List] {
 	return rapid.Custom(func(t *rapid.T) []esl.List {
 		n := rapid.IntRange(0, max).Draw(t, "nlists")
 		var out []esl.List
@@ -95,8 +127,35 @@ func ESLStream(max int) *rapid.Generator[[]esl.List] {
 				out = append(out, l)
 				continue
 			}
-			out = append(out, ESLList().Draw(t, "list"))
+			out = append(out, eslList(huge).Draw(t, "list"))
 		}
 		return out
 	})
 }
+
+// mimicHeaders rewrites the entries of a list (all but the first) so that each of them reads as the header of an
+// X.509 list that spans exactly the rest of the enclosing list: owner field = the X.509 type GUID, then ListSize =
+// bytes left, HeaderSize = 0, SignatureSize = bytes left - 28. The list stays well-formed and means what it meant
+// (the entries are just data), but a decoder that loses count inside the list (a clamp, a wrapped counter, an
+// early exit) lands on something it can parse and returns a differently-split database instead of an error.
+func mimicHeaders(l esl.List) {
+	n := len(l.Entries)
+	for i := 1; i < n; i++ {
+		rest := uint32(n-i) * l.Size
+		if rest < 28+16 {
+			break
+		}
+		e := &l.Entries[i]
+		e.Owner = esl.X509
+		d := make([]byte, len(e.Data))
+		copy(d, e.Data)
+		if len(d) >= 12 {
+			le32(d[0:], rest)
+			le32(d[4:], 0)
+			le32(d[8:], rest-28)
+		}
+		e.Data = d
+	}
+}
+
+func le32(b []byte, v uint32) { b[0], b[1], b[2], b[3] = byte(v), byte(v>>8), byte(v>>16), byte(v>>24) }
